@@ -231,7 +231,9 @@ func buildSteps(spec *CaseSpec, dir string) ([]dag.Step, map[string]*dag.Step, [
 			st.RepeatPolicy = dag.RepeatPolicy{Repeat: true, Interval: time.Duration(s.RepeatMs) * time.Millisecond}
 		}
 		if s.HasPrecond {
-			st.Preconditions = []dag.Condition{{Condition: "$" + envName(spec.ID, s.Name), Expected: "1"}}
+			for i := 0; i < precondN(s); i++ {
+				st.Preconditions = append(st.Preconditions, dag.Condition{Condition: "$" + precondEnv(spec.ID, s.Name, i), Expected: "1"})
+			}
 		}
 		if s.SetupFail {
 			st.Stdout = filepath.Join(dir, "no-such-dir", "x", s.Name+".out")
@@ -258,28 +260,55 @@ func buildSteps(spec *CaseSpec, dir string) ([]dag.Step, map[string]*dag.Step, [
 	return steps, hs, all
 }
 
+func precondN(s *StepSpec) int {
+	if s.PrecondN > 1 {
+		return s.PrecondN
+	}
+	return 1
+}
+
+func precondEnv(caseID, step string, i int) string {
+	if i == 0 {
+		return envName(caseID, step)
+	}
+	return fmt.Sprintf("%s_%d", envName(caseID, step), i)
+}
+
 func setPrecondEnv(spec *CaseSpec) {
 	for _, s := range spec.Steps {
 		if s.HasPrecond {
-			v := "1"
-			if s.PrecondUnmet {
-				v = "0"
+			for i := 0; i < precondN(s); i++ {
+				v := "1"
+				if s.PrecondUnmet && i == s.PrecondBadAt%precondN(s) {
+					v = "0"
+				}
+				os.Setenv(precondEnv(spec.ID, s.Name, i), v)
 			}
-			os.Setenv(envName(spec.ID, s.Name), v)
 		}
 	}
 	if spec.DagPrecondBad {
-		os.Setenv(envName(spec.ID, "DAG"), "0")
+		// three DAG-level conditions, the unmet one in a seed-determined position
+		for i := 0; i < 3; i++ {
+			v := "1"
+			if i == int(spec.DecSeed%3+3)%3 {
+				v = "0"
+			}
+			os.Setenv(precondEnv(spec.ID, "DAG", i), v)
+		}
 	}
 }
 
 func clearPrecondEnv(spec *CaseSpec) {
 	for _, s := range spec.Steps {
 		if s.HasPrecond {
-			os.Unsetenv(envName(spec.ID, s.Name))
+			for i := 0; i < precondN(s); i++ {
+				os.Unsetenv(precondEnv(spec.ID, s.Name, i))
+			}
 		}
 	}
-	os.Unsetenv(envName(spec.ID, "DAG"))
+	for i := 0; i < 3; i++ {
+		os.Unsetenv(precondEnv(spec.ID, "DAG", i))
+	}
 }
 
 // BuildYAML renders the case as a DAG definition (agent level).
@@ -298,7 +327,10 @@ func BuildYAML(spec *CaseSpec, dir string) string {
 	fmt.Fprintf(&b, "maxCleanUpTimeSec: 1\n")
 	fmt.Fprintf(&b, "histRetentionDays: 7\n")
 	if spec.DagPrecondBad {
-		fmt.Fprintf(&b, "preconditions:\n  - condition: %s\n    expected: \"1\"\n", q("$"+envName(spec.ID, "DAG")))
+		fmt.Fprintf(&b, "preconditions:\n")
+		for i := 0; i < 3; i++ {
+			fmt.Fprintf(&b, "  - condition: %s\n    expected: \"1\"\n", q("$"+precondEnv(spec.ID, "DAG", i)))
+		}
 	}
 	ex := func(ind string) {
 		fmt.Fprintf(&b, "%sexecutor:\n%s  type: verif\n%s  config:\n%s    case: %s\n", ind, ind, ind, ind, q(spec.ID))
@@ -336,7 +368,10 @@ func BuildYAML(spec *CaseSpec, dir string) string {
 			fmt.Fprintf(&b, "    repeatPolicy:\n      repeat: true\n      intervalSec: 0\n")
 		}
 		if s.HasPrecond {
-			fmt.Fprintf(&b, "    preconditions:\n      - condition: %s\n        expected: \"1\"\n", q("$"+envName(spec.ID, s.Name)))
+			fmt.Fprintf(&b, "    preconditions:\n")
+			for i := 0; i < precondN(s); i++ {
+				fmt.Fprintf(&b, "      - condition: %s\n        expected: \"1\"\n", q("$"+precondEnv(spec.ID, s.Name, i)))
+			}
 		}
 		if s.SignalOnStop != "" {
 			fmt.Fprintf(&b, "    signalOnStop: %s\n", s.SignalOnStop)
